@@ -78,8 +78,12 @@ let () =
             if iclass <> "blockerr" && iclass <> "panic" && iclass <> "generr" then begin
               List.iter (fun (p, m, i) -> report_mismatch p m i) (diff_lines (dump_state post) post_lines);
               let mxs = List.map print_xfer post.M.st_xfers in
+              (* the same transfers in another order within one operation: no property constrains the order relative
+                 to the model (reproducibility of the order is C14's repeated-execution check, hook-before-transfer is
+                 the ORDER check), so this is recorded under a projection of its own that is in no footprint *)
               if mxs <> List.map norm_ws ixs then
-                report_mismatch "transfers" (String.concat "; " mxs) (String.concat "; " ixs);
+                report_mismatch (if List.sort compare mxs = List.sort compare (List.map norm_ws ixs) then "transfer_order" else "transfers")
+                  (String.concat "; " mxs) (String.concat "; " ixs);
               bumpn "transfers" (List.length ixs)
             end
           end;
